@@ -242,6 +242,36 @@ def run_case(tier, seed, index, spec=None):
         if not (fggs.FiniteFactor(D3, torch.tensor(wl, dtype=torch.float64).reshape(shape)) == f):
             V('factor-equality', 'factors over content-equal domains and equal weights compare unequal')
 
+    # ---------------- the other factor class: a ConstantFactor has one weight for every value tuple; equality by domains and weight
+    CF = getattr(env.mod('fggs.factors'), 'ConstantFactor', None)
+    if CF is not None:
+        wc = round(rng.uniform(0, 3), 2)
+        oc = C.call(CF, D, wc)
+        if not oc['ok']:
+            V(f'constant-factor-exception:{oc["exc_type"]}', f'ConstantFactor({[d.size() for d in D]}, {wc}) raised {oc["exc"]}', domains=descr)
+        else:
+            cf = oc['value']
+            obs['constant_factor_checks'] = obs.get('constant_factor_checks', 0) + 1
+            if all(shape):
+                vals_c = [d.denumberize(rng.randrange(d.size())) for d in D]
+                oa = C.call(cf.apply, vals_c)
+                if not oa['ok'] or oa['value'] != wc:
+                    V('constant-factor-apply', f'apply({vals_c}) = {oa.get("value")!r} ({oa.get("exc")}), weight is {wc}', domains=descr)
+            D3c = [fggs.FiniteDomain(list(d.values)) if isinstance(d, fggs.FiniteDomain) else fggs.RangeDomain(d.size()) for d in D]
+            same, other_w = CF(D3c, wc), CF(D, wc + 1.0)
+            if not (cf == same) or not (same == cf) or (cf != same) or not (cf == cf):
+                V('constant-factor-equality', 'ConstantFactors over content-equal domains with the same weight compare unequal', domains=descr)
+            if cf == other_w or not (cf != other_w):
+                V('constant-factor-equality', 'ConstantFactors with different weights compare equal', domains=descr)
+            if 'tensor' in reps and (cf == reps['tensor'] or reps['tensor'] == cf):
+                V('constant-factor-equality', 'a ConstantFactor equals a FiniteFactor', domains=descr)
+            if ar and all(shape):
+                D2c = list(D)
+                kc = rng.randrange(ar)
+                D2c[kc] = fggs.FiniteDomain([f'other{i}' for i in range(shape[kc])])
+                if D2c[kc] != D[kc] and CF(D2c, wc) == cf:
+                    V('constant-factor-equality', 'ConstantFactors over different domains compare equal', domains=descr)
+
     # ---------------- factor equality with genuinely patterned weights: decided by the dense tensors, not by the storage
     if ar and all(shape):
         types = [TP.type_of_size(rng, n) for n in shape]
@@ -357,7 +387,7 @@ def run_case(tier, seed, index, spec=None):
 
 def finalize(tot, tier, seed):
     inc = []
-    for k in ('shape_accept', 'shape_reject', 'apply_checks', 'binding_calls', 'eq_checks'):
+    for k in ('shape_accept', 'shape_reject', 'apply_checks', 'binding_calls', 'eq_checks', 'constant_factor_checks'):
         if tot['obs'].get(k, 0) == 0:
             inc.append(f'monitor {k} never exercised')
     for f in ('finite', 'range', 'size0', 'size1'):
